@@ -74,6 +74,7 @@ class ScopeKernels:
         m.table = [(re.compile(r"^std::mem::replace::<.*>$"), m_mem_replace),
                    (re.compile(r"^context::Ctx::<'_>::load_variable$"), self._m_load_variable),
                    (re.compile(r"^context::Ctx::<'_>::load_local$"), self._m_load_local),
+                   (re.compile(r"^context::Ctx::<'_>::register_export$"), models.m_effect_ok),
                    (re.compile(r"^context::Ctx::<'_>::load_callback_variable$"), self._m_load_callback_variable)] + m.table
         m.cache.clear()
         pre = CRATE_PREFIXES + ["GcVector", "Stack", "SpecialScope", "PrimitiveFlagsPair", "VariableMapping", "VariableFlags", "StackFrame", "PrimitiveFunction", "TupleWithGcOpt"]
@@ -95,6 +96,7 @@ class ScopeKernels:
             "update": f(r"stack\.rs.*>::update$", lambda fn_: fn_.locals[1].strip() == "&stack::VariableMapping"),
             "get": f(r"stack\.rs.*>::get$", lambda fn_: fn_.locals[1].strip() == "&stack::VariableMapping"),
             "make_function": f(r"^(implementations::)?make_function$"),
+            "export_name": f(r"^(implementations::)?export_name$"),
         }
         self._lookup = {}
 
@@ -252,6 +254,15 @@ def run_mkfn(sk, shape, names):
     return Run("mkfn", shape, vs, pc, outs, {"names": list(names), "tag": "capture=" + ("+".join(names) or "none")})
 
 
+def run_export(sk, shape):
+    """`export_name x`: the module's export table must receive the variable's own cell (importers share the live variable)"""
+    cells, vs, pc = sk.build(shape)
+    cells[("ctx",)] = Adt("Ctx", None, [Adt("Vec", None, [])] + [Opaque("ctx-field", i) for i in range(1, 6)])
+    cells[("iargs",)] = Adt("[]", None, [Opaque("strlit", '"x"')])
+    outs = sk.ex.run(sk.fn["export_name"], [Ref(("ctx",)), Ref(("iargs",))], cells=cells, pc=pc)
+    return Run("export", shape, vs, pc, outs)
+
+
 def run_mapping(sk, op, name, flags_ro):
     """VariableMapping::update / get on the captured variables {x -> cell A, y -> cell B} of a closure"""
     cells, pc = {}, []
@@ -388,6 +399,33 @@ def judge(sk, run, profile, qs, timeout_ms, seed):
                 fail("lookup-changes-state", "lookup changes the bindings")
             else:
                 fail("lookup-changes-state", "lookup changes a variable", z3.Not(_unchanged(run, cellvals)))
+        elif run.op == "export":
+            frames, cellvals = sk.snapshot(o)
+            # export_name looks the name up in the current function's frames only (Ctx::load_local)
+            t = assign_target(shape)
+            regs = [e for e in o.effects if e[0] == "register_export"]
+            if o.value.variant == "Err":
+                if t is not None:
+                    fail("spurious-failure", "exporting a variable of the current scope fails")
+                elif regs:
+                    fail("exports-unbound", "a failing export still registers something")
+            else:
+                if t is None:
+                    fail("exports-unbound", "a name that is not bound in the current scope is exported")
+                else:
+                    want = run.vs[(t, "x")][0]
+                    ok_ = len(regs) == 1 and len(regs[0][1]) == 2
+                    if ok_:
+                        nm, pr = regs[0][1]
+                        nm_s = strmodels.to_sstr(sk.ex, _FakeState(o.cells), nm)
+                        ok_ = nm_s is not None and "".join(chr(z3.simplify(c.e).as_long()) for c in nm_s.fields) == "x" \
+                            and isinstance(pr, Adt) and pr.ty == "PrimitiveFlagsPair" and pr.fields[0].fields[0].cell == want
+                    if not ok_:
+                        fail("exports-copy", "the export table does not receive the variable's own cell under its name (importers would see a snapshot)")
+            if not _same_bindings(run, frames):
+                fail("lookup-changes-state", "exporting changes the bindings")
+            else:
+                fail("lookup-changes-state", "exporting changes a variable", z3.Not(_unchanged(run, cellvals)))
         elif run.op == "extend":
             frames, cellvals = sk.snapshot(o)
             k = len(shape.frames)
